@@ -369,6 +369,11 @@ pub fn builtin_avg(arr: Vec<f64>, onEmpty: Option<Thunk<Val>>) -> Result<Val> {
 
 #[builtin]
 pub fn builtin_remove_at(arr: ArrValue, at: i32) -> Result<ArrValue> {
+	// Documented as [arr[i] for i in range if i != at]: nothing to remove for such indexes
+	// (a negative `at` would be interpreted as relative to the end by slice)
+	if at < 0 || at as usize >= arr.len() {
+		return Ok(arr);
+	}
 	let newArrLeft = arr.clone().slice(None, Some(at), None);
 	let newArrRight = arr.slice(Some(at.saturating_add(1)), None, None);
 
